@@ -293,16 +293,29 @@ Definition ne_ignore_internal (G : ne_ingraph) (ign : list (string * string)) (e
   then ne_bind (ne_mapM (ne_expanded_edge G) elems) (fun l => NE_Ok (ign ++ l))
   else NE_Err NE_ValueError.
 
-(* _remove_empty_paths(solution): keeps (path, weight) pairs with len(path) > 1 *)
-Definition ne_remove_empty (sol : list (list string * Z)) : list (list string * Z) :=
-  filter (fun pw => Nat.ltb 1 (List.length (fst pw))) sol.
+(* _remove_empty_paths / _remove_empty_walks(solution), as the code is now (since /repo 7b35658):
+     internal = solution.get("_paths_internal", solution["paths"])
+     for path, internal_path, weight in zip(paths, internal, weights): keep iff len(internal_path) > 1
+   An entry is (returned route, internal route, weight). *)
+Definition ne_remove_empty (sol : list ((list string * list string) * Z)) : list ((list string * list string) * Z) :=
+  filter (fun x => Nat.ltb 1 (List.length (snd (fst x)))) sol.
 
-(* get_solution(remove_empty_paths) of kFlowDecomp / kLeastAbsErrors / kMinPathError in node mode:
-   the internal paths are condensed FIRST, the filter runs on the condensed paths. *)
+(* get_solution(remove_empty) of the k-models in node mode: the internal routes are condensed, the filter
+   looks at the INTERNAL route; the result pairs each kept condensed route with its weight. *)
 Definition ne_node_solution (G : ne_ingraph) (gsrc gsnk : string) (internal : list (list string)) (weights : list Z)
            (remove_empty : bool) : ne_res (list (list string * Z)) :=
   ne_bind (ne_condense_paths G gsrc gsnk internal)
-    (fun ps => let sol := combine ps weights in NE_Ok (if remove_empty then ne_remove_empty sol else sol)).
+    (fun ps => let sol := combine (combine ps internal) weights in
+               NE_Ok (map (fun x => (fst (fst x), snd x)) (if remove_empty then ne_remove_empty sol else sol))).
+
+(* OLD behaviour (before /repo 7b35658; finding remove_empty_drops_single_node, fixed): the filter tested
+   len(path) > 1 on the CONDENSED routes.  Kept only as the subject of the _refuted theorems. *)
+Definition ne_remove_empty_old (sol : list (list string * Z)) : list (list string * Z) :=
+  filter (fun pw => Nat.ltb 1 (List.length (fst pw))) sol.
+Definition ne_node_solution_old (G : ne_ingraph) (gsrc gsnk : string) (internal : list (list string)) (weights : list Z)
+           (remove_empty : bool) : ne_res (list (list string * Z)) :=
+  ne_bind (ne_condense_paths G gsrc gsnk internal)
+    (fun ps => let sol := combine ps weights in NE_Ok (if remove_empty then ne_remove_empty_old sol else sol)).
 
 (* the expansion of a path / walk of the original graph (specification side; used by the theorems and
    by the harness to phrase E2) *)
